@@ -16,10 +16,65 @@ def jobs(rng, thorough):
     return out
 
 
+def subunit_close(ctx, T, rng, n):
+    """close() on a subunit from inside one of its own update callbacks, repeated, and before/after initialisation: it returns without raising
+    and once it has returned no update callback of that subunit is started any more (not even the rest of the current delivery round)"""
+    from ..l3 import L3Session
+    from .c03 import value_for
+    for sno in range(n):
+        c = rng.choice(T["classes"])
+        S = L3Session()
+        idx = S.new(c["py"])
+        obj = S.objs[idx]
+        if rng.random() < 0.8:
+            S.initialize(idx)
+        closer = rng.choice([1, 2, 3, 4])
+        state = {"closed": False, "after": [], "exc": None}
+
+        def make(cb):
+            def f(fn, value):
+                if state["closed"]:
+                    state["after"].append(cb)
+                if cb == closer and not state["closed"]:
+                    try:
+                        obj.close()
+                        if rng.random() < 0.5:
+                            obj.close()
+                    except Exception as e:  # noqa: BLE001
+                        state["exc"] = e
+                    state["closed"] = True
+            return f
+        for cb in (1, 2, 3, 4):
+            obj.register_update_callback(make(cb))
+        fs = [f for f in c["fns"] if f["get"]]
+        for k in range(rng.randint(1, 4)):
+            f = rng.choice(fs)
+            r = S.msg("OK", c["id"], f["name"], value_for(rng, T, f, undecodable_ok=False))
+            ctx.case(("subunit-close", c["py"], closer, k))
+            ctx.count("subunit-close:delivery")
+            what = None
+            if state["exc"] is not None:
+                what = f"close() raised {type(state['exc']).__name__}: {state['exc']}"
+            elif r.startswith("EXC"):
+                what = f"delivery raised {r[4:]} after a callback closed the subunit"
+            elif state["after"]:
+                what = f"update callbacks {state['after']} were started after close() had returned"
+            if what:
+                ctx.violation(f"{c['py']}: close() from inside update callback {closer}: {what}", {"path": "subunit-close", "class": c["py"], "closer": closer},
+                              {"kind": what.split(" ")[0][:20], "path": "subunit-close"})
+                return
+        try:
+            obj.close()
+        except Exception as e:  # noqa: BLE001
+            ctx.violation(f"{c['py']}: repeated close() raised {type(e).__name__}: {e}", {"path": "subunit-close", "class": c["py"]}, {"kind": "raised", "path": "subunit-close"})
+            return
+
+
 def run(ctx: core.Ctx):
     ctx.lean_stage()
     b2check.run_b2(ctx, jobs, ["C16"], label="lifecycle scenarios")
     T = core.tables()
+    subunit_close(ctx, T, ctx.rng, 4000 if ctx.tier == "thorough" else 200)
     b2check.run_b2(ctx, lambda rng, th: [(gen.api_close_race(rng, T), rng.randrange(10 ** 9), rng.choice([0, 0, 3])) for _ in range(6000 if th else 150)],
                    ["C16"], label="YncaApi.close() from a second thread during / after initialize(), monitor only", accept=False)
     ctx.info["rule"] = ("sessions of two caller threads with bursts, a link drop / EOF / write error / close() inserted at a random position, close() from a caller, "
@@ -29,4 +84,28 @@ def run(ctx: core.Ctx):
 
 
 def replay(ctx, path):
-    return b2check.replay_b2(json.load(open(path))["replay"], ["C16"])
+    rp = json.load(open(path))["replay"]
+    if rp.get("path") == "subunit-close":
+        import random
+        from ..l3 import L3Session
+        T = core.tables()
+        c = next(x for x in T["classes"] if x["py"] == rp["class"])
+        S = L3Session()
+        obj = S.objs[S.new(c["py"])]
+        S.initialize(0)
+        started = []
+
+        def make(cb):
+            def f(fn, value):
+                started.append(cb)
+                if cb == rp.get("closer", 1):
+                    obj.close()
+                    started.append("closed")
+            return f
+        for cb in (1, 2, 3, 4):
+            obj.register_update_callback(make(cb))
+        f = next(f for f in c["fns"] if f["get"] and f["conv"]["k"] == "str") if any(f["get"] and f["conv"]["k"] == "str" for f in c["fns"]) else None
+        if f:
+            print("impl :", S.msg("OK", c["id"], f["name"], "x"), "order of starts:", started)
+        return 0
+    return b2check.replay_b2(rp, ["C16"])
